@@ -1,8 +1,8 @@
 (** Property C09 — ST-MOC construction represents exactly the observations given.
     Statements only.  Both construction paths are judged by verified checkers. *)
-From Coq Require Import List NArith.
+From Coq Require Import List NArith Sorting.Sorted.
 From MOC.Base Require Import RangeSet.
-From MOC.Model Require Import Qty Ops1D ST.
+From MOC.Model Require Import Qty Ops1D ST Sweep2D.
 Import ListNotations.
 Open Scope N_scope.
 
@@ -47,8 +47,34 @@ Example C09_nonvacuous :
                         ([(10, 20)], [(864691128455135232, 1152921504606846976)])] = true.
 Proof. repeat split; vm_compute; reflexivity. Qed.
 
+(** the range-2D construction path AS WRITTEN (Ranges2D::make_consistent + compress: bounds sorted by
+    (x, end before start) by ANY correct sort, sweep with the set of open entries, union of their
+    coverages reduced in any order, empty unions skipped, touching entries with equal coverages fused)
+    covers (t, s) exactly when some input entry has t in its time range and s in its coverage; its
+    entries are non-empty in both dimensions, canonical, increasing and disjoint in time, and no two
+    touching entries carry the same coverage *)
+Theorem C09_range2d_construction_as_written : forall n ts te ys ucov bs,
+  (forall i, (i < n)%nat -> ts i < te i) ->
+  (forall a, (forall i, In i a -> (i < n)%nat) -> Canon (ucov a)) ->
+  (forall a x, (forall i, In i a -> (i < n)%nat) -> (cov (ucov a) x <-> exists i, In i a /\ cov (ys i) x)) ->
+  StronglySorted ble bs ->
+  (forall x i, In (x, i, true) bs <-> ((i < n)%nat /\ x = ts i)) ->
+  (forall x i, In (x, i, false) bs <-> ((i < n)%nat /\ x = te i)) ->
+  (forall t x, covE (make_consistent ucov bs) t x <-> covIn n ts te ys t x) /\
+  tchain 0 (make_consistent ucov bs) /\ nofuse (make_consistent ucov bs).
+Proof. exact make_consistent_spec. Qed.
+
+(** the executable instance run by the oracle (insertion sort, union in list order) *)
+Theorem C09_range2d_executable_model : forall es,
+  (forall e, In e es -> fst (fst e) < snd (fst e) /\ Canon (snd e)) ->
+  (forall t x, covE (r2d_build es) t x <-> exists e, In e es /\ inr (fst e) t /\ cov (snd e) x) /\
+  tchain 0 (r2d_build es) /\ nofuse (r2d_build es).
+Proof. exact r2d_build_spec. Qed.
+
 Print Assumptions C09_observations_pointset.
 Print Assumptions C09_depends_on_observation_set_only.
 Print Assumptions C09_built_moc_checker_exact.
 Print Assumptions C09_stmoc_validity_checker_exact.
 Print Assumptions C09_range2d_validity_checker_exact.
+Print Assumptions C09_range2d_construction_as_written.
+Print Assumptions C09_range2d_executable_model.
